@@ -11,6 +11,7 @@ textbook definition; NaN policy from the statement; a second oracle cross-checks
 """
 import itertools
 import math
+import warnings
 
 import numpy as np
 from hypothesis import strategies as st
@@ -32,7 +33,7 @@ ASSUMPTIONS = [
     "attrs of percentile results are not asserted (built on stack, see DESIGN 6.8)",
 ]
 MANDATORY = ["axis:name", "axis:pos", "axis:negpos", "axis:None", "axis:tuple", "axis:tuple-all", "skipna:True", "nan:whole-fibre", "nan:all",
-             "nan:sparse", "vk:i", "vk:b", "result:single-element", "percentile:list", "percentile:scalar", "labels:unsorted", "values:inf", "dtype:float32"]
+             "nan:sparse", "vk:i", "vk:b", "result:single-element", "percentile:list", "percentile:scalar", "labels:unsorted", "values:inf", "dtype:float32", "axis:tuple-of-one", "dtype-checked:b->i", "dtype-checked:i->f", "dtype-checked:f->f", "dtype-checked:b->b"]
 
 REDS = ["sum", "prod", "mean", "var", "std", "min", "max", "ptp", "all", "any", "median"]
 
@@ -134,6 +135,16 @@ def check_reduction(a, spec, name, axis_form, axis_dims, skipna, cl, attrs=None)
             check(core.attrs_equal(res.attrs, attrs), "attrs-not-carried", {"what": what, "got": core.jsonable(res.attrs), "expected": attrs}, sig)
         if res.values.size == 1:
             cl.add("result:single-element")
+    # "returns NumPy's f over .values": also NumPy's result type (a count of booleans is an integer, the mean of integers a float)
+    if not skipna:
+        vals0 = _values_from(spec)
+        with np.errstate(all="ignore"), warnings.catch_warnings():
+            warnings.simplefilter("ignore")
+            npd = np.asarray(getattr(np, name)(vals0, axis=tuple(dims.index(d) for d in reduced))).dtype
+        gotd = np.asarray(res.values if remaining else res).dtype
+        # (the kind is compared - bool / integer / float -, not the precision: the library computes e.g. the median of float32 data in double precision)
+        check(gotd.kind == npd.kind, "result-dtype-kind", {"what": what, "got": str(gotd), "numpy": str(npd), "input": str(vals0.dtype)}, sig)
+        cl.add("dtype-checked:" + vals0.dtype.kind + "->" + npd.kind)
     # second oracle: NumPy itself on NaN-free data (validates the textbook code; a disagreement here is a harness problem)
     if not any_nan and not skipna and len(reduced) == 1:
         vals = _values_from(spec)
@@ -204,6 +215,7 @@ def axis_forms(dims):
     out = [("default", None), (None, None)]
     for i, d in enumerate(dims):
         out += [(d, [d]), (i, [d]), (i - n, [d])]
+        out += [(["T", d], [d]), (["L", i], [d]), (["T", i - n], [d])]      # a tuple / list of one dimension
     if n >= 2:
         for pair in itertools.permutations(range(n), 2):
             out.append((["T"] + [dims[i] for i in pair], [dims[i] for i in pair]))
@@ -251,6 +263,8 @@ def run_shape(case):
                     cl.add("axis:pos" if form >= 0 else "axis:negpos")
                 else:
                     cl.add("axis:tuple-all" if len(reduced) == len(spec["dims"]) else "axis:tuple")
+                    if len(reduced) == 1:
+                        cl.add("axis:tuple-of-one")
                 if skipna:
                     cl.add("skipna:True")
     core.expect_unchanged(a, snap, "reductions", {"op": "any-reduction"})
